@@ -78,6 +78,11 @@ def rand_box(rng, n, kind):
         elif kind == "narrow":
             k = 3
             w = np.exp(rng.uniform(-7, -2))
+        elif kind == "narrow_far":
+            # large-magnitude variable with a box that is narrow relative to its magnitude but far from degenerate
+            k = 3
+            c = float(rng.choice([-1.0, 1.0]) * np.exp(rng.uniform(np.log(1e2), np.log(1e5))))
+            w = abs(c) * float(np.exp(rng.uniform(np.log(2e-7), np.log(1e-3))))
         elif kind == "lower":
             k = 1
         elif kind == "upper":
